@@ -108,7 +108,13 @@ pub fn run(o: &Opts) {
         let mut srcbuf = vec![0u8; n + soff + 1];
         fill(&mut rng, pat, &mut srcbuf);
         let src = srcbuf[soff..soff + n].to_vec();
-        let words: Vec<u64> = (0..n.div_ceil(64)).map(|_| match pat { 1 => 0, 2 => u64::MAX, _ => rng.random() }).collect();
+        let words: Vec<u64> = (0..n.div_ceil(64)).map(|_| match pat {
+            1 => 0,
+            2 => u64::MAX,
+            // sparse rows: all-zero words mixed with one-hot and random words (the solver's HDPC/tail rows look like this)
+            3 => match rng.random_range(0..3) { 0 => 0, 1 => 1u64 << rng.random_range(0..64), _ => rng.random() },
+            _ => rng.random(),
+        }).collect();
         let scalar = Octet::new(c);
         let mut ev = json!({"ev":"op","k":kind,"level":level_name,"off":start,"len":n,"c":c});
         let a = arena.slice();
